@@ -205,7 +205,7 @@ fn check(case: &Case, ctx: &mut Ctx) {
                 if cached_same {
                     // the store answers from its read cache without touching anything
                     if res.is_err() {
-                        ctx.fail("cached_put_errors", format!("{at}: {res:?}"));
+                        ctx.precondition_failed("cached_put_errors", format!("{at}: {res:?}"));
                     }
                     if after != before {
                         ctx.fail("cached_put_changed_held_set", format!("{at}: {before:?} -> {after:?}"));
@@ -219,7 +219,7 @@ fn check(case: &Case, ctx: &mut Ctx) {
                     }
                 } else if before.len() < cap {
                     if res.is_err() {
-                        ctx.fail("below_capacity_refused", format!("{at}: held {} < capacity {cap}, yet refused: {res:?}", before.len()));
+                        ctx.precondition_failed("below_capacity_refused", format!("{at}: held {} < capacity {cap}, yet refused: {res:?}", before.len()));
                     } else {
                         if before.len() + unacked.len() >= cap {
                             bursts += 1;
@@ -431,7 +431,7 @@ fn check_large(case: &LargeCase, ctx: &mut Ctx) {
     for i in 0..n {
         let key = w.uni[i].0.clone();
         if let Err(e) = w.sim.put_local(record(&key, make_value(0, 4, i as u32))) {
-            ctx.fail("below_capacity_refused", format!("put {i}: {e}"));
+            ctx.precondition_failed("below_capacity_refused", format!("put {i}: {e}"));
             return;
         }
         if i % 256 == 255 {
@@ -441,7 +441,7 @@ fn check_large(case: &LargeCase, ctx: &mut Ctx) {
     w.sim.settle(|_| 0);
     let before = w.real_listed(ctx, "large store filled");
     if before.len() != n {
-        ctx.fail("large_store_fill_incomplete", format!("{} of {n} records listed", before.len()));
+        ctx.precondition_failed("large_store_fill_incomplete", format!("{} of {n} records listed", before.len()));
         return;
     }
     let rank = pick_idx(case.range_rank, n);
